@@ -121,6 +121,7 @@ class UBXMessage:
 
         offset = 0  # payload offset in bytes
         index = []  # array of (nested) group indices
+        anam = ""  # name of attribute being processed (for error reporting)
 
         try:
             if len(kwargs) == 0:  # if no kwargs, assume null payload
